@@ -14,6 +14,13 @@ pub fn swallow_resume_unwind(p: Box<dyn std::any::Any + Send>) {
     std::panic::resume_unwind(p);
 }
 
+pub fn swallow_thread(f: impl FnOnce() + Send) {
+    std::thread::scope(|s| {
+        let h = std::thread::Builder::new().spawn_scoped(s, f).unwrap();
+        h.join().ok();
+    });
+}
+
 pub fn swallow_hook() {
     let _ = std::panic::take_hook();
 }
@@ -31,6 +38,26 @@ pub fn leak_guard_manually_drop(world: &World) {
 pub fn leak_guard_box(world: &World) {
     let g = Box::new(world.fetch_mut::<Res>());
     let _ = Box::leak(g);
+}
+
+pub fn launder_guard<'a>(world: &'a World) -> &'a Res {
+    let g = world.fetch::<Res>();
+    let p: *const Res = &*g;
+    unsafe { &*p }
+}
+
+pub fn launder_guard_transmute<'a>(world: &'a World) -> &'a Res {
+    let g = world.fetch::<Res>();
+    unsafe { std::mem::transmute::<&Res, &'a Res>(&*g) }
+}
+
+unsafe fn extend_lifetime<'a, 'b, T>(r: &'a T) -> &'b T {
+    &*(r as *const T)
+}
+
+pub fn launder_guard_helper<'a>(world: &'a World) -> &'a Res {
+    let g = world.fetch::<Res>();
+    unsafe { extend_lifetime(&*g) }
 }
 
 pub fn cap_threads() -> rayon::ThreadPool {
